@@ -934,7 +934,15 @@ AllGone  == \A w \in Workers : pc[w] = "exited"
 \* once requests stop, the system settles with no goal and everybody parked (or, after a
 \* final shutdown / an un-respawned fork, everybody exited)
 Settles  == <>[](goal = "None" /\ requests = {} /\ (AllWait \/ AllGone))
-ForkServed == \A k \in 1..MaxFork : (forkCount >= k) ~> (AllGone \/ forkCount > k)
+\* every prepare_to_fork / shutdown leads to all workers having exited and surrendered ...
+ForkServed == (vmpc[1] \in {"req", "join"}) ~> AllGone
+\* ... and every fork to a respawn (after which Served covers the following GCs)
 ForkRoundTrip == [](vmpc = <<"join", "Fork">> => <>(vmpc[1] = "idle"))
 
+\* ---- vacuity witnesses: each must be VIOLATED (used as a throw-away INVARIANT) ----
+WitnessSecondGC   == finished < 2
+WitnessConcPhase  == ~(enabled[C] /\ goal = "None")
+WitnessRearm      == \A b \in Stage : sentinel[b] # NoPkt => sentinel[b].d = MaxDepth
+WitnessLostNotify == ~(\E w \in Workers : pc[w] = "tolock" /\ Runnable /\ waiters = {})
+WitnessGcAfterRespawn == ~(forkCount > 0 /\ creation = "Spawned" /\ goal = "Gc")
 =============================================================================
